@@ -114,6 +114,11 @@ def run(ctx):
             jobs.append(("g%dx%d/%d/s5" % (H, W, i), codes, variant, L.SEED, 5))
             if i % 3 == 0:     # a lower seed level: classes >= 3 seed (monotonicity on the code side)
                 jobs.append(("g%dx%d/%d/s425" % (H, W, i), codes, variant, 4.25, 3))
+            if i % 3 == 1:
+                # seed level == flood level (allowed: 0 < flood <= seed; what the finder uses when outerclip is
+                # clamped to innerclip): pixels exactly AT the common level (class 2) are flooded but seed nothing
+                tie = [[2 if v == 3 else v for v in row] for row in codes]
+                jobs.append(("g%dx%d/%d/seqf" % (H, W, i), tie, variant, L.FLOOD, 3))
     # structured family: faint U around a separate bright pixel inside its bounding box, etc.
     special = [
         [[3, 3, 3, 3, 3], [3, 1, 1, 1, 3], [3, 1, 5, 1, 3]],
